@@ -78,6 +78,18 @@ LITERALS = ['0', '1', '7', '255', '256', '65535', '65536', '4294967296', '100000
             '0x' + 'f' * 5000, '1' + '0' * 4000,
             'None', 'True', 'False', '...', '-1', '-1.5', '-1j', '- -1', '+1', '~1', '-0.0', '1 + 2j', '(1).real', '1.5.real', '1j.real', '0x10.real', '1e5.real', '1 .real']
 
+# systematic grids (deterministic): mantissa x exponent for floats, powers for ints, a few complex
+for _m in ('1', '1.5', '1.25', '2.5', '1.2345678901234567', '9.999999999999998', '1.0000000000000002', '12345678901234568', '1.7', '4.2'):
+    for _e in range(-12, 26, 1):
+        LITERALS.append('%se%d' % (_m, _e))
+for _k in range(0, 26):
+    LITERALS.append(str(10 ** _k))
+    LITERALS.append(str(2 ** (3 * _k)))
+    LITERALS.append(str(16 ** _k - 1 if _k else 3))
+for _c in ('1e16j', '1.5e16j', '12345678901234568j', '1e-7j', '123456.0j', '1e22j'):
+    LITERALS.append(_c)
+LITERALS = list(dict.fromkeys(LITERALS))
+
 ADJ = ['c', '1', '0x1f', '1.5', '.5', '1e5', '1.', '1j', "'s'", "b's'", "f'{c}'", 'None', 'True', '(c)', '[c]', '{c}', '-1', 'not c', '...', 'c.d', '1e5j', '10', "''", 'lambda: c', '_', 'match', 'case', 'type']
 ADJ_QUICK = ['c', '1', '0x1f', '1.5', '.5', '1e5', '1j', "'s'", "b's'", "f'{c}'", 'None', '(c)', '-1', 'not c', '_']
 ADJ_TEMPLATES = ['t = {A} if {B} else c', 't = c if {A} else {B}', 't = {A} in {B}', 't = {A} is not {B}', 't = {A} not in {B}', 't = {A} and {B}', 't = {A} or {B}', 't = not {A}',
@@ -394,7 +406,8 @@ def all_cells(tier):
     for lit in LITERALS:
         short = lit if len(lit) < 30 else lit[:12] + '...(%d digits)' % len(lit)
         cells.append(('prog', 'num %s' % short, 'x = %s\n' % lit))
-        cells.append(('prog', 'num [%s, %s]' % (short, short), 'x = [%s, %s] if %s else %s\n' % (lit, lit, lit, lit)))
+        if len(lit) < 30 and ('e' not in lit or lit.count('e') and len(lit) < 8):
+            cells.append(('prog', 'num [%s, %s]' % (short, short), 'x = [%s, %s] if %s else %s\n' % (lit, lit, lit, lit)))
     adj = ADJ if tier == 'thorough' else ADJ_QUICK
     for tpl in ADJ_TEMPLATES:
         two = '{B}' in tpl
@@ -427,6 +440,6 @@ def enumerate_all(model, rep, P):
     thorough = rep.tier == 'thorough'
     report_cells(rep, P + '.ENUM1', by['slot'], where, lambda l: l.split(' <- ')[0], 4500 if thorough else 2500)
     report_cells(rep, P + '.LAY', by['lay'], where, lambda l: l.split(':')[0] + ': ' + l.split(': ')[1].split(' ;')[0].split(' around')[0].split(' body')[0].split(' case')[0], 2500 if thorough else 600)
-    report_cells(rep, P + '.NUM', by['num'], where, lambda l: 'literal spellings', 150)
+    report_cells(rep, P + '.NUM', by['num'], where, lambda l: 'literal spellings', 500)
     report_cells(rep, P + '.ENUM2', by['adj'], where, lambda l: l.split(' | ')[0], 10000 if thorough else 1500)
     report_cells(rep, P + '.PAT', by['pat'], where, lambda l: l.split(' ')[1], 150)
